@@ -3,6 +3,8 @@ import re, random
 from props.common import ScenarioCheck
 from props import c04
 from specs import kernel as kspec
+from specs import handlers, tcp_stream
+from specs import udp as udpspec
 import intervene
 
 TRUSTED = c04.TRUSTED + [
@@ -15,7 +17,9 @@ def throw_variants(bases, seed, tier):
     rng = random.Random(seed * 7 + 5)
     out = []
     for b in bases:
-        hs = sorted(set(re.findall(r"^do (h\d+) ", b, re.M)))
+        # handlers that run operations of their own, and handlers that only appear as the completion
+        # token of an operation (resolve, accept, timer wait, UDP receive ... in bases without handler ops)
+        hs = sorted(set(re.findall(r"^do (h\d+) ", b, re.M)) | set(re.findall(r"^do \S+ \S+ .*?\b(h\d+)\b", b, re.M)))
         if not hs: continue
         for h in (rng.sample(hs, min(len(hs), 2 if tier == "quick" else 8))):
             lines = b.rstrip("\n").split("\n")
@@ -31,17 +35,135 @@ def gen(seed, tier):
     bases = intervene.base_scenarios(seed + 1000, tier)
     return scns + throw_variants(bases, seed, tier)
 
+def touched_objects(impl):
+    """objects an intervention (an op in a step-hook context `s<k>` / `a<k>`) acted on, with the names
+    they were moved to and the sockets an intervention's accept names"""
+    t = set()
+    for ln in impl:
+        if not ln.startswith("C "): continue
+        tk = ln.split()
+        if len(tk) < 3 or not re.match(r"[sa]\d+$", tk[1]) or "." not in tk[2]: continue
+        obj, m = tk[2].split(".", 1)
+        t.add(obj)
+        if m in ("move", "accept", "accept_ep", "accept_new") and len(tk) > 3 and tk[3] != "=>": t.add(tk[3])
+    return t
+
+def _names(detail, objs):
+    return any(re.search(r"(?<![A-Za-z0-9_])%s(?![A-Za-z0-9_])" % re.escape(o), detail) for o in objs)
+
+def throw_propagates(impl):
+    """an exception thrown by a user handler leaves run(): after `C h<k> throw` no further handler runs
+    and the run reports the exception"""
+    fails = []; pending = None
+    for ln in impl:
+        tk = ln.split()
+        if not tk: continue
+        if tk[0] == "X": return fails
+        if tk[0] == "C" and len(tk) >= 3 and tk[2] == "throw" and tk[1] != "top" and pending is None:
+            pending = ln
+        elif pending is not None and tk[0] == "H":
+            fails.append(("throw_propagates", "handler %s ran after `%s`: the exception did not leave run()" % (tk[1], pending))); pending = None
+        elif pending is not None and tk[0] == "R":
+            if "throw" not in tk[1:]:
+                fails.append(("throw_propagates", "`%s` was followed by `%s`: run() returned normally instead of propagating the exception" % (pending, ln)))
+            pending = None
+    if pending is not None:
+        fails.append(("throw_propagates", "`%s` is not followed by any return of run()" % pending))
+    return fails
+
+def bystander_timers(impl, touched):
+    """C03 on the timers nobody interfered with: a timer that was armed once, waited on once (before
+    its expiry) and never cancelled / re-armed / destroyed, in a run that neither stopped nor threw,
+    completes with success exactly at its expiry - whatever was done to other objects meanwhile"""
+    lo, hi = handlers._times(impl)
+    ops = {}; waits = {}; bad = False; quiescent = False; done = {}
+    for idx, ln in enumerate(impl):
+        tk = ln.split()
+        if not tk: continue
+        if tk[0] == "X": return []
+        if tk[0] == "H":
+            d = dict(t.split("=", 1) for t in tk[2:] if "=" in t)
+            done.setdefault(tk[1], []).append((d.get("ec"), d.get("t"), ln))
+        elif tk[0] == "R":
+            quiescent = "throw" not in tk
+            if "throw" in tk: bad = True
+        elif tk[0] == "C" and len(tk) >= 3:
+            if tk[2] in ("stop", "throw"): bad = True
+            if "=>" in tk and " ".join(tk[tk.index("=>") + 1:]) in ("skipped", "bad-op"): continue
+            m = re.match(r"(t\d+)\.(\w+)$", tk[2])
+            if m: ops.setdefault(m.group(1), []).append((m.group(2), idx, tk))
+    if bad or not quiescent: return []
+    fails = []
+    for t, l in ops.items():
+        if t in touched or [o[0] for o in l] not in (["expires_at", "wait"], ["expires_after", "wait"]): continue
+        (m, i0, tk0), (_, i1, tk1) = l
+        if lo[i0] != hi[i0] and not (m == "expires_at"): continue        # arming instant not known exactly
+        try: e = int(tk0[3]) + (lo[i0] if m == "expires_after" else 0)
+        except (ValueError, IndexError): continue
+        if hi[i1] >= e or len(tk1) < 4: continue                          # the wait must start before the expiry
+        h = tk1[3]; r = done.get(h, [])
+        if len(r) != 1:
+            if not r: fails.append(("bystander_timer", "%s: wait %s on a timer nothing interfered with (expiry %d) never completed although run() returned with nothing stopped" % (t, h, e)))
+            continue
+        ec, tt, ln = r[0]
+        if ec != "ok" or tt != str(e):
+            fails.append(("bystander_timer", "%s: wait %s on a timer nothing interfered with (expiry %d) completed as `%s`" % (t, h, e, ln)))
+    return fails
+
 def spec_c12(impl, scn):
-    # crashes / sanitizer reports are turned into violations by the framework itself; here: the
-    # rest of the simulation keeps behaving (clock discipline) after any intervention
+    # crashes / sanitizer reports are turned into violations by the framework itself; here:
+    # (1) the rest of the simulation keeps behaving: clock discipline after any intervention;
     f2, f3, st = kspec.check_lines(impl)
-    return [f for f in f2 if f[0] in ("monotone", "change_only_when_idle")]
+    fails = [f for f in f2 if f[0] in ("monotone", "change_only_when_idle")]
+    # (2) an exception thrown by a user handler propagates out of run();
+    fails += throw_propagates(impl)
+    # (3) "every other object keeps behaving according to its own properties": the statements of C04
+    # (handlers), C05 (TCP stream) and C08 (UDP datagrams), judged on the objects NO intervention
+    # touched - a failure that names a touched object (or a connection / datagram exchange one of
+    # whose ends was touched) is not this clause's business. After a thrown exception only
+    # never-inline / at-most-once are kept (the statement promises a simulation that is safe to
+    # destroy, not one that carries on unharmed).
+    try:
+        fails += bystanders(impl, scn)
+    except Exception as e:        # a monitor must never take the check down
+        import traceback
+        fails.append(("monitor_error", "props/c12.py raised %r: %s" % (e, traceback.format_exc()[-300:])))
+    return fails
+
+def bystanders(impl, scn):
+    fails = []
+    touched = touched_objects(impl)
+    threw = any(l.startswith("C ") and l.split()[2:3] == ["throw"] for l in impl)
+    hf = handlers.check(impl, scn, skip_objs=touched, clauses=({"never_inline", "at_most_once"} if threw else None))
+    fails += [("bystander_" + c, d) for c, d in hf]
+    fails += bystander_timers(impl, touched)
+    if not threw and not any(l.startswith("X ") for l in impl):
+        # which two sockets form a connection is known to the C05 monitor for certain only from endpoints;
+        # without them it goes by the order of connects, which is exact unless several connectors dial the
+        # same endpoint (an intervention may reorder them): such connections are left out
+        mon = tcp_stream.Monitor(scn or "")
+        tf = mon.run(impl)
+        dialled = {}
+        for sd in mon.sides:
+            if sd.kind == "connector": dialled[sd.target] = dialled.get(sd.target, 0) + 1
+        unsure = set()
+        for sd in mon.sides:
+            if sd.firm: continue
+            c = sd if sd.kind == "connector" else sd.peer
+            if c is None or dialled.get(c.target, 0) > 1: unsure.add(sd.sock)
+        for c, d in tf:
+            if not _names(d, touched | unsure): fails.append(("bystander_tcp_" + c, d))
+        for c, d in udpspec.check(impl, scn):
+            # the trace lines a detail refers to (the send_to of the datagram) name the sender
+            ref = " ".join(impl[int(k)] for k in re.findall(r"trace line (\d+)", d) if int(k) < len(impl))
+            if not _names(d + " " + ref, touched): fails.append(("bystander_udp_" + c, d))
+    return fails
 
 def nontrivial(impl):
     return any(re.match(r"C [sa]\d+ ", l) or l.endswith(" throw") for l in impl) and sum(1 for l in impl if l.startswith("H ")) >= 2
 
 CHECK = ScenarioCheck("C12", ["SimVerif.Props.C12"], "kernel", gen, spec_c12, nontrivial,
-    "the intervention matrix of C04 (cancel / close / destroy / supersede at every event boundary of TCP transfers over lossy and loss-free routes, UDP exchanges, pending accepts, connects, resolves and timers) plus handlers that throw (run()'s catch-all, then restart and run on), all under ASan + UBSan + libstdc++ assertions; any sanitizer report, crash or hang is a violation; non-trivial = an intervention executed and >= 2 completions",
+    "the intervention matrix of C04 (cancel / close / destroy / supersede at every event boundary of TCP transfers over lossy and loss-free routes, UDP exchanges, pending accepts, connects, resolves and timers) plus handlers that throw (run()'s catch-all, then restart and run on), all under ASan + UBSan + libstdc++ assertions; any sanitizer report, crash or hang is a violation; monitor: clock discipline, the exception leaves run() (no handler after the throw, run reports it), and the objects no intervention touched keep to C04 (handlers), C03 (a timer nobody interfered with fires at its expiry), C05 (TCP stream of connections with both ends untouched) and C08 (UDP datagrams between untouched sockets, incl. never lost without a stated reason); non-trivial = an intervention executed and >= 2 completions",
     TRUSTED, ASSUME, spec_scn=True)
 
 def run(tier, seed, replay):
